@@ -43,7 +43,7 @@ def run(repo, res):
     from . import flagsrule
 
     res.rule("R29.5", "samples are never split: sample status is decided by the NODE_IS_SAMPLE bit or ts.samples(), never by comparing the whole flags word (samples may carry further bits, e.g. tsinfer's historical-sample bit)")
-    flagsrule.run(repo, res, "R29.5")
+    flagsrule.run(repo, res, "R29.5", floor=2, scope=["util.split_disjoint_nodes", "util._split_disjoint_nodes", "util._reorder_nodes"])
     res.rule("R29.1", "column completeness: the node table is rebuilt by one set_columns call carrying every node column (flags, time, population, individual, metadata, metadata_offset); the per-row columns are taken from the old table through the same order index")
     res.rule("R29.2", "the split flag is OR-ed into flags exactly at split_nodes; unsplit_node_id is added to the decoded row metadata and encoded through the table's own schema; failure downgrades to a warning")
     res.rule("R29.3", "who-may-write: only edges.{parent,child}, mutations.node, the node columns, sort/build_index/compute_mutation_parents and at most one provenance record; sites, mutation sites/states, edge coordinates and sequence_length are never written")
